@@ -8,7 +8,7 @@ import (
 // SortStrings is inserted by simgen after the watcher collected map keys into a slice
 // (see simgen); outside a simulation the slice is left as it is.
 func SortStrings(s []string) {
-	if active != nil {
+	if act() != nil {
 		sort.Strings(s)
 	}
 }
@@ -17,13 +17,13 @@ func SortStrings(s []string) {
 // scan-order shuffle).
 
 func RandSeed(seed int64) {
-	if active == nil {
+	if act() == nil {
 		rand.Seed(seed)
 	}
 }
 
 func RandRead(b []byte) (int, error) {
-	s := active
+	s := act()
 	if s == nil {
 		return rand.Read(b)
 	}
@@ -44,7 +44,7 @@ func RandRead(b []byte) (int, error) {
 }
 
 func RandInt31n(n int32) int32 {
-	s := active
+	s := act()
 	if s == nil {
 		return rand.Int31n(n)
 	}
